@@ -298,8 +298,8 @@ Proof.
   - now apply frame_refl.
   - now apply a_unset_frame.
   - destruct (stk st) as [|fs r] eqn:Es; [contradiction|].
-    destruct (fs_get x fs) as [[| | | | |m]|]; simp_stk; try (rewrite Es; now apply frame_refl).
-    destruct (fs_poke x (VMap (remove_indexed_map m (v0 :: vs))) fs); simp_stk; rewrite ?Es; split; try reflexivity; discriminate.
+    destruct (fs_get x fs) as [c|]; simp_stk; try (rewrite Es; now apply frame_refl).
+    destruct (fs_poke x (remove_indexed c (v0 :: vs)) fs); simp_stk; rewrite ?Es; split; try reflexivity; discriminate.
 Qed.
 
 End StepInv2.
@@ -344,6 +344,9 @@ Proof.
   - stmt_tac.
   - stmt_tac.
   - (* SCall *) apply (exec_call_inv fns f HP) in H; [|assumption]. rewrite H. now apply frame_refl.
+  - stmt_tac.
+  - stmt_tac.
+  - stmt_tac.
 Qed.
 
 End StepInv3.
